@@ -110,9 +110,16 @@ def make_case(rng):
         stats.append([fn, first, name, entries])
     # dict order of the stats is arbitrary: shuffle
     rng.shuffle(stats)
+    opts = {'stripzeros': rng.chance(1, 2), 'details': rng.chance(4, 5), 'summarize': rng.chance(1, 2), 'sort': rng.chance(1, 2)}
+    r2 = rng.fork('zero-rows')
+    if opts['stripzeros'] and r2.chance(1, 3):
+        # hand-built / loaded statistics may carry rows with 0 hits (get_stats never produces them); a function with only such rows is
+        # "not run" and hidden by --skip-zero everywhere (without --skip-zero show_func would divide by its 0 hits: outside the domain)
+        for st in stats:
+            if r2.chance(1, 2):
+                st[3] = [[l, 0, 0] for l in range(st[1], st[1] + 1 + r2.below(3))]
     return {'files': {'mod_a.py': SRC_A.replace('\\t', '\t'), 'mod_b.py': SRC_B}, 'stats': stats, 'unit': rng.choice(UNITS),
-            'output_unit': rng.choice(OUNITS),
-            'opts': {'stripzeros': rng.chance(1, 2), 'details': rng.chance(4, 5), 'summarize': rng.chance(1, 2), 'sort': rng.chance(1, 2)}}
+            'output_unit': rng.choice(OUNITS), 'opts': opts}
 
 
 # ------------------------------------------------------------------------------------------------- independent parser
